@@ -185,6 +185,55 @@ func entriesEqual(a, b []Entry) bool {
 
 // ---- Coq rendering ----
 
+// Interner numbers the distinct value strings of one case: the Coq side only compares values for
+// equality.  0 = the empty string; the constants the model knows are negative.
+type Interner struct {
+	ids  map[string]int64
+	strs map[int64]string
+}
+
+const (
+	comment1Text = `"DASTARD configuration file. Written and read by DASTARD."`
+	comment2Text = `"Human intervention by experts is permitted but not expected."`
+)
+
+func newInterner() *Interner {
+	in := &Interner{ids: map[string]int64{}, strs: map[int64]string{}}
+	for s, id := range map[string]int64{"": 0, comment1Text: -1, comment2Text: -2, "false": -3} {
+		in.ids[s] = id
+		in.strs[id] = s
+	}
+	return in
+}
+
+func (in *Interner) id(s string) int64 {
+	if id, ok := in.ids[s]; ok {
+		return id
+	}
+	id := int64(len(in.ids)) // 4 predefined: the first fresh id is 4
+	in.ids[s] = id
+	in.strs[id] = s
+	return id
+}
+
+func (in *Interner) table() map[string]string {
+	out := map[string]string{}
+	for id, s := range in.strs {
+		out[fmt.Sprint(id)] = s
+	}
+	return out
+}
+
+// vals is the interner of the case being run (cases run one after the other in a process).
+var vals = newInterner()
+
+func coqZ(v int64) string {
+	if v < 0 {
+		return fmt.Sprintf("(%d)", v)
+	}
+	return fmt.Sprintf("%d", v)
+}
+
 func coqStr(s string) string {
 	for _, c := range []byte(s) {
 		if c < 32 || c > 126 {
@@ -194,10 +243,12 @@ func coqStr(s string) string {
 	return `"` + strings.ReplaceAll(s, `"`, `""`) + `"`
 }
 
+func coqVal(s string) string { return coqZ(vals.id(s)) }
+
 func coqPairs(es []Entry) string {
 	parts := make([]string, len(es))
 	for i, e := range es {
-		parts[i] = "(" + coqStr(e.K) + "," + coqStr(e.V) + ")"
+		parts[i] = "(" + coqStr(e.K) + "," + coqVal(e.V) + ")"
 	}
 	return "[" + strings.Join(parts, ";") + "]"
 }
